@@ -224,7 +224,7 @@ theorem isSubtype_compat (pos var : TypeRef) : isSubtype {} pos var = typesCompa
 /-- the type `VariableInAllowedPosition` compares the location with -/
 def expectedTy (v : VarDef) (locDef : Bool) : TypeRef :=
   if !(false : Bool) && locDef && !v.ty.isNonNull then TypeRef.nonNull v.ty
-  else (if !v.ty.isNonNull && v.default.isSome then TypeRef.nonNull v.ty else v.ty)
+  else (if !v.ty.isNonNull && hasDefault {} v then TypeRef.nonNull v.ty else v.ty)
 
 theorem compat_nonNull_left (t l : TypeRef) (ht : t.isNonNull = false) :
     typesCompatible (.nonNull t) l = typesCompatible t l.nullable := by
@@ -233,9 +233,13 @@ theorem compat_nonNull_left (t l : TypeRef) (ht : t.isNonNull = false) :
 theorem compat_nullable_nonNull (t l : TypeRef) (ht : t.isNonNull = false) : typesCompatible t (.nonNull l) = false := by
   cases t <;> simp_all [typesCompatible, TypeRef.isNonNull]
 
-/-- the implementation's comparison is IsVariableUsageAllowed, except for a variable whose default
-    value is the literal `null` (the implementation counts it as a default, the specification does not) -/
-theorem judge_eq (v : VarDef) (loc : TypeRef) (b : Bool) (hnull : v.default ≠ some .null) :
+theorem hasDefault_none (v : VarDef) (h : v.default = none) : hasDefault {} v = false := by simp [hasDefault, h]
+theorem hasDefault_null (v : VarDef) (h : v.default = some .null) : hasDefault {} v = false := by simp [hasDefault, h]
+theorem hasDefault_some (v : VarDef) (x : GValue) (h : v.default = some x) (hx : x ≠ .null) : hasDefault {} v = true := by
+  cases x <;> simp_all [hasDefault]
+
+/-- the repaired comparison (the literal `null` is not counted as a default) is IsVariableUsageAllowed -/
+theorem judge_eq (v : VarDef) (loc : TypeRef) (b : Bool) :
     isSubtype {} loc (expectedTy v b) = usageAllowed v loc b := by
   rw [isSubtype_compat]
   unfold expectedTy usageAllowed
@@ -246,17 +250,20 @@ theorem judge_eq (v : VarDef) (loc : TypeRef) (b : Bool) (hnull : v.default ≠ 
     | nonNull l =>
       simp only [hv']
       cases hd : v.default with
-      | none => cases b <;> simp [compat_nonNull_left _ _ hv', compat_nullable_nonNull _ _ hv', TypeRef.nullable]
+      | none => cases b <;> simp [hasDefault_none v hd, compat_nonNull_left _ _ hv', compat_nullable_nonNull _ _ hv', TypeRef.nullable]
       | some x =>
-        rw [hd] at hnull
-        cases x <;> cases b <;>
-          simp_all [compat_nonNull_left _ _ hv', compat_nullable_nonNull _ _ hv', TypeRef.nullable]
+        by_cases hx : x = .null
+        · subst hx
+          cases b <;> simp [hasDefault_null v hd, compat_nonNull_left _ _ hv', compat_nullable_nonNull _ _ hv', TypeRef.nullable]
+        · have hdef := hasDefault_some v x hd hx
+          cases x <;> cases b <;>
+            simp_all [compat_nonNull_left _ _ hv', compat_nullable_nonNull _ _ hv', TypeRef.nullable]
     | named n =>
       simp only [hv']
-      cases b <;> cases hd : v.default.isSome <;> simp [compat_nonNull_left _ _ hv', TypeRef.nullable]
+      cases b <;> cases hd : hasDefault {} v <;> simp [compat_nonNull_left _ _ hv', TypeRef.nullable]
     | list l =>
       simp only [hv']
-      cases b <;> cases hd : v.default.isSome <;> simp [compat_nonNull_left _ _ hv', TypeRef.nullable]
+      cases b <;> cases hd : hasDefault {} v <;> simp [compat_nonNull_left _ _ hv', TypeRef.nullable]
 
 end AGV.Lemmas.ValidateGraph
 
@@ -278,11 +285,11 @@ def judgeS (vars : List VarDef) (u : String × TypeRef × Bool) : Bool :=
   | some v => !(usageAllowed v u.2.1 u.2.2)
   | none => false
 
-theorem judge_agree (vars : List VarDef) (hn : ∀ v ∈ vars, v.default ≠ some .null) (u) : judgeM vars u = judgeS vars u := by
+theorem judge_agree (vars : List VarDef) (u) : judgeM vars u = judgeS vars u := by
   unfold judgeM judgeS
   cases h : vars.find? (·.name = u.1) with
   | none => rfl
-  | some v => simp only []; rw [judge_eq v _ _ (hn v (List.mem_of_find?_eq_some h))]
+  | some v => simp only []; rw [judge_eq v _ _]
 
 theorem ruleVarPositions_eq (d : Doc) (tbl : List ScopeRec) :
     ruleVarPositions {} d tbl = d.ops.flatMap (fun o =>
@@ -335,9 +342,8 @@ theorem mem_usages (S : VSchema) (d : Doc) (h : GraphHyp S d) (hT : TypedSchema 
     mem_specUs S d (scopesNodup_frags d h.nodup), mem_recO_usages S hT o (h.served o ho) (hr o ho)]
   simp only [mem_recF_usages S hT]
 
-/-- VariableInAllowedPosition = §5.8.5 All Variable Usages Are Allowed (no `null` defaults) -/
-theorem rule_variables_in_allowed_position (S : VSchema) (d : Doc) (h : GraphHyp S d) (hT : TypedSchema S) (hr : RootsExist S d)
-    (hnull : NoNullDefault d) :
+/-- VariableInAllowedPosition (repaired) = §5.8.5 All Variable Usages Are Allowed -/
+theorem rule_variables_in_allowed_position (S : VSchema) (d : Doc) (h : GraphHyp S d) (hT : TypedSchema S) (hr : RootsExist S d) :
     Kind.varPosition ∈ ruleVarPositions {} d (docTable S d) ↔ violates_AllVariableUsagesAllowed S d = true := by
   rw [ruleVarPositions_eq, allowed_eq]
   simp only [List.mem_flatMap, List.any_eq_true]
@@ -348,7 +354,7 @@ theorem rule_variables_in_allowed_position (S : VSchema) (d : Doc) (h : GraphHyp
     · split at hk
       · rename_i hc
         obtain ⟨u, hu, hj⟩ := List.any_eq_true.mp hc
-        exact ⟨o, ho, u, (mem_usages S d h hT hr o ho u).mp hu, by rw [← judge_agree _ (hnull o ho)]; exact hj⟩
+        exact ⟨o, ho, u, (mem_usages S d h hT hr o ho u).mp hu, by rw [← judge_agree _]; exact hj⟩
       · cases hk
   · rintro ⟨o, ho, u, hu, hj⟩
     refine ⟨o, ho, ?_⟩
@@ -357,7 +363,7 @@ theorem rule_variables_in_allowed_position (S : VSchema) (d : Doc) (h : GraphHyp
       | nil => simp [judgeS, hv] at hj
       | cons _ _ => rfl
     have hc : ((reachable (docTable S d) (.op o.name)).flatMap (fun s => (recOf (docTable S d) s).usages)).any (judgeM o.vars) = true :=
-      List.any_eq_true.mpr ⟨u, (mem_usages S d h hT hr o ho u).mpr hu, by rw [judge_agree _ (hnull o ho)]; exact hj⟩
+      List.any_eq_true.mpr ⟨u, (mem_usages S d h hT hr o ho u).mpr hu, by rw [judge_agree _]; exact hj⟩
     simp [hne, hc]
 
 end AGV.Lemmas.ValidateGraph
